@@ -85,8 +85,14 @@ func (rt *runtime) newRegExpObject(pattern string, flags string) *object {
 	return o
 }
 
+var emptyRegExp = regexp.MustCompile("(?:)")
+
 func (o *object) regExpValue() regExpObject {
 	value, _ := o.value.(regExpObject)
+	if value.regularExpression == nil {
+		// RegExp.prototype has class RegExp but no compiled expression: it matches like /(?:)/ (15.10.6)
+		value.regularExpression = emptyRegExp
+	}
 	return value
 }
 
